@@ -160,7 +160,14 @@ func (g *sGraph) emit(m *openfgav1.AuthorizationModel, td *openfgav1.TypeDefinit
 			}
 			target := g.node(r.GetType()+"#"+c, sRel)
 			label := T + "#" + ts
-			e := g.findEdge(parent, target, TTUEdge, label)
+			// one edge per parent type and OCCURRENCE of the tuple-to-userset: a parent type listed twice in the
+			// tupleset (`[group, group with c]`) is folded, the same operand written twice under one operator is not
+			var e *sEdge
+			for _, ge := range group {
+				if ge.to == target && ge.kind == TTUEdge && ge.tupleset == label {
+					e = ge
+				}
+			}
 			if e == nil {
 				cond := r.GetCondition()
 				if cond == "" {
